@@ -23,3 +23,8 @@ chk("C14", "model_checking",
     "Partition.tla states split_idx (numpy.array_split) and get_functions (ceil, the 'many cores' correction loop as explicit steps, last rank takes the rest) and TLC proves Tiles for every (N,P) in the bounds; the real functions are run for every (N,P,r) and their slices judged by PartitionJudge!Tiles. FS.tla models the constructor's isdir/mkdir steps per rank and the rank-0-creates/barrier/write protocol; every interleaving TLC enumerates is replayed on real processes by the stand-in's scheduler and the executed steps must be the requested behaviour. The four fitting stages run on P ranks (incl. P > N; free-running and with rank 0 slowest), their coordinator traces are validated against CollTrace.tla and their outputs are byte-compared with the 1-rank run.",
     "Exhaustive for (N,P) <= (24,12) quick / (40,20) thorough and for all start-up interleavings of 2 (quick) / 3 (thorough) ranks; stage runs are a finite list of rank counts. Trusted: the stand-in's scheduler, per-function re-seeding of numpy.random.",
     "TLA+ models Partition/FS/Coll; TLC-enumerated schedules replayed on real processes; slices and coordinator traces judged by TLC", "5 C14")
+
+chk("C13", "model_checking",
+    "Coll.tla gives the semantics of the collectives and TLC checks Matched / Confluent / NoOrphan over all posting orders (and that a crash produces an orphan); generation is run on P ranks (incl. more ranks than functions and than functions with a recorded map) free-running, under seeded serialised schedules chosen by the coordinator and with rank 0 slowest; each coordinator trace is validated against CollTrace.tla (same program on all ranks, agreement on every collective, nobody blocked behind an exited rank, all exit 0), tree / function / tree-code files are byte-compared with the 1-rank run and the P-rank library is judged by Library.tla (C03 clauses).",
+    "Model exhaustive for 3 ranks and programs of <= 3 collectives; implementation runs are a finite list of (library, P, schedule). Trusted: the stand-in, P1.",
+    "TLA+ model of SPMD collectives; trace validation of coordinator traces; schedule exploration on real processes; Library.tla on P-rank libraries", "5 C13")
